@@ -2116,6 +2116,33 @@ func cborArrayInfo(data []byte) (int, uint32, bool) {
 	}
 }
 
+// cborTagHeaderSize returns the size of the CBOR tag header (major type 6) at
+// the start of data, or 0 if data does not start with a tag.
+func cborTagHeaderSize(data []byte) uint32 {
+	if len(data) == 0 || data[0]&0xe0 != 0xc0 {
+		return 0
+	}
+	var size uint32
+	switch additional := data[0] & 0x1f; {
+	case additional <= 23:
+		size = 1
+	case additional == 24:
+		size = 2
+	case additional == 25:
+		size = 3
+	case additional == 26:
+		size = 5
+	case additional == 27:
+		size = 9
+	default:
+		return 0
+	}
+	if int(size) > len(data) {
+		return 0
+	}
+	return size
+}
+
 // extractScriptArrayOffsets extracts script hash -> offset mappings from a script array.
 // The scriptType parameter specifies the Cardano script type prefix used in hashing:
 // 0x00 = native script, 0x01 = PlutusV1, 0x02 = PlutusV2, 0x03 = PlutusV3
@@ -2129,6 +2156,14 @@ func extractScriptArrayOffsets(scriptArrayData []byte, baseOffset uint32, script
 		return
 	}
 
+	// The script list may be a set, which is the array wrapped in tag 258.
+	// The scripts start after the tag header and the array header
+	tagHeaderSize := cborTagHeaderSize(scriptArrayData)
+	scriptArrayData = scriptArrayData[tagHeaderSize:]
+	if len(scriptArrayData) < 1 {
+		return
+	}
+
 	// Determine header size based on actual encoding
 	// 0x9f indicates indefinite-length array (header = 1 byte)
 	var arrayHeaderSize uint32
@@ -2137,7 +2172,7 @@ func extractScriptArrayOffsets(scriptArrayData []byte, baseOffset uint32, script
 	} else {
 		_, arrayHeaderSize, _ = cborArrayInfo(scriptArrayData)
 	}
-	pos := arrayHeaderSize
+	pos := tagHeaderSize + arrayHeaderSize
 
 	for _, scriptRaw := range scripts {
 		scriptBytes := []byte(scriptRaw)
